@@ -32,7 +32,7 @@ def bounds(tier, seed):
     return dict(nsteps=[2, 3] if tier == "quick" else [1, 2, 3, 4], rows_full=2, rows_slice=3)
 
 
-VARIANTS = list(itertools.product(["xy", "ll", "both"], [True, False], [True, False], ["discrete", "cont1", "cont2"], [False, True]))
+VARIANTS = list(itertools.product(["xy", "ll", "both"], [True, False], [True, False], ["discrete", "discrete+freq", "cont1", "cont2"], [False, True]))
 
 
 def cases(tier, seed):
@@ -40,7 +40,12 @@ def cases(tier, seed):
     out = []
     for n in b["nsteps"]:
         for vi, var in enumerate(VARIANTS):
-            if tier == "thorough" or (n == 3 and var[0] != "both") or (vi + seed) % 3 == 0:
+            special = var[0] == "both" or var[3] == "discrete+freq"  # added for seeded changes: in quick only the small tables
+            if tier == "quick" and special:
+                if n == 2:
+                    out.append(dict(mode="tables", nsteps=n, variant=list(var), rows=[1, 2]))
+                continue
+            if tier == "thorough" or n == 3 or (vi + seed) % 3 == 0:
                 out.append(dict(mode="tables", nsteps=n, variant=list(var), rows=[1, 2]))
             # 3-row tables: thorough = all variants; quick = a seed-chosen sixth of the variants at Nsteps=2
             if tier == "thorough" or (n == 2 and (vi + seed) % 6 == 0):
@@ -68,7 +73,7 @@ def reference(table, nsteps, mode, has_mult):
     """Expected releases per step: list over steps of [(row index)] in order, replicated mult times."""
     sched = {n: [] for n in range(nsteps)}
     mult = lambda r: r["mult"] if has_mult else 1  # noqa: E731
-    if mode == "discrete":
+    if mode in ("discrete", "discrete+freq"):
         for i, r in enumerate(table):
             if 0 <= r["slot"] < nsteps:
                 sched[r["slot"]] += [i] * mult(r)
@@ -87,7 +92,7 @@ def reference(table, nsteps, mode, has_mult):
 
 
 def on_tick_grid(table, mode):
-    if mode == "discrete":
+    if mode in ("discrete", "discrete+freq"):
         return True
     f = 1 if mode == "cont1" else 2
     t0 = table[0]["slot"]
@@ -147,7 +152,9 @@ def run_table(table, nsteps, variant):
     sched = reference(table, nsteps, mode, has_mult)
     total = sum(len(v) for v in sched.values())
     kw = dict(names=None if header else cols)
-    if mode != "discrete":
+    if mode == "discrete+freq":  # a discrete release with a left-over release_frequency (continuous not set): still discrete
+        kw.update(release_frequency=DT)
+    elif mode != "discrete":
         kw.update(continuous=True, release_frequency=DT * (1 if mode == "cont1" else 2))
     try:
         rel = ParticleReleaser(dict(time=tk, state=st, grid=grid), StringIO(text), **kw)
